@@ -124,7 +124,7 @@ PROPS = {
     'rule': 'one PRNG: histories of 1-15 ops (1-40 thorough) over 6 hashes x 3 jobs on a real TargetsManager+Service (gin in-process)+Proxy: updates '
             '(adds, removals, state flips, repeats, empty sets, moves between jobs, 1/15 with a failing callback), proxied scrapes of assigned and '
             'unassigned targets (ok with known kept/dropped sample counts, connection failure, HTTP 500, body breaking off; 1/12 with a stop '
-            'reason; 1/8 against a job whose http client the shard does not have - never an operation of the model, whatever it records shows at the next observation), restarts (new manager on the same store dir); 1/4 of the new targets arrive with an estimate above their total; observed after start-up and after every op: /targets/status/, /runtimeinfo/ and /samples/?with_metrics_detail=true (read twice: per job the kept samples and the (kept, all) counts of the two metrics of the payloads). '
+            'reason; 1/8 against a job whose http client the shard does not have - never an operation of the model, whatever it records shows at the next observation), restarts (new manager AND new injector on the same store dir, the configuration reaching the injector before or after the stored assignment, alternating); the real Injector is wired as in cmd/kvass/sidecar.go (first update callback, reload callback) and the file it writes is loaded as Prometheus would after every op; 1/4 of the histories start on a store directory that holds a store file of the old format; 1/4 of the new targets arrive with an estimate above their total; the status text is classified (nothing / stop reason / connection / HTTP status / body); observed after start-up and after every op: /targets/status/, /runtimeinfo/ and /samples/?with_metrics_detail=true (read twice: per job the kept samples and the (kept, all) counts of the two metrics of the payloads). '
             'non-trivial = history of >= 3 ops; distinct by input',
     'theorems': 'C10_update C10_new_target C10_kept_target C10_invariant C10_idle_update C10_idle_scrape C10_store_after_ack C10_restart',
     'trusted_base': [   'model Model/Sidecar.v hand-written from targets.go/service.go/proxy.go/status.go; tie = step-by-step differential run '
@@ -140,7 +140,7 @@ PROPS = {
     'rule': 'one PRNG: histories of 1-15 ops (1-40 thorough) over 6 hashes x 3 jobs on a real TargetsManager+Service (gin in-process)+Proxy: updates '
             '(adds, removals, state flips, repeats, empty sets, moves between jobs, 1/15 with a failing callback), proxied scrapes of assigned and '
             'unassigned targets (ok with known kept/dropped sample counts, connection failure, HTTP 500, body breaking off; 1/12 with a stop '
-            'reason; 1/8 against a job whose http client the shard does not have - never an operation of the model, whatever it records shows at the next observation), restarts (new manager on the same store dir); 1/4 of the new targets arrive with an estimate above their total; observed after start-up and after every op: /targets/status/, /runtimeinfo/ and /samples/?with_metrics_detail=true (read twice: per job the kept samples and the (kept, all) counts of the two metrics of the payloads). '
+            'reason; 1/8 against a job whose http client the shard does not have - never an operation of the model, whatever it records shows at the next observation), restarts (new manager AND new injector on the same store dir, the configuration reaching the injector before or after the stored assignment, alternating); the real Injector is wired as in cmd/kvass/sidecar.go (first update callback, reload callback) and the file it writes is loaded as Prometheus would after every op; 1/4 of the histories start on a store directory that holds a store file of the old format; 1/4 of the new targets arrive with an estimate above their total; the status text is classified (nothing / stop reason / connection / HTTP status / body); observed after start-up and after every op: /targets/status/, /runtimeinfo/ and /samples/?with_metrics_detail=true (read twice: per job the kept samples and the (kept, all) counts of the two metrics of the payloads). '
             'non-trivial = history of >= 3 ops; distinct by input || stats engine: 1-3 blocks of 0-6 (0-30) samples over 3 metrics x 3 optional '
             'labels, exact duplicates, 0-2 keep/drop rules with literal regexes on __name__ or a label; real exposition parser + real '
             'relabel.Process; non-trivial = >= 2 samples',
@@ -426,7 +426,7 @@ PROPS = {
     'C18': {
         'engines': [('k8s', 600, 12000)],
         'rule': 'cases from one PRNG: 60% ChangeScale (old,new in 0..6 (0..13 thorough), 0-3 templates, flag, claims present/missing/'
-                'left-over/look-alike), 20% Shards (shuffled pod lists, missing IPs, holes), 20% Replicas (rolling / not-ready sets; half of them HISTORIES of 2-5 calls on one manager with 0 / 1 / 30 / 119 / 120 / 121 / 600 s passing between calls - hook VerifAge - and every set changing between ready, not ready and updating); '
+                'left-over/look-alike), 20% Shards (shuffled pod lists of 0-12 pods, missing IPs, holes; half of them with same-labelled, same-named pods of another namespace and a manager over all namespaces), 20% Replicas (rolling / not-ready sets; half of them HISTORIES of 2-5 calls on one manager with 0 / 1 / 30 / 119 / 120 / 121 / 600 s passing between calls - hook VerifAge - and every set changing between ready, not ready and updating); '
                 'non-trivial = scale actually changed, or >=2 pods, or >=1 rolling set; distinct by input',
         'theorems': 'C18_scale_exact C18_scale_noop C18_deleted_exactly C18_nothing_created C18_survivors_kept C18_names C18_order '
                     'C18_shard_fields C18_rolling C18_rolling_always C18_first_call_is_history (+ C18_rolling_always_example)',
